@@ -60,6 +60,13 @@ ASSUMPTIONS = ["id() of a live object is its address; equal ids of live objects 
                "CPython calls weakref callbacks from PyObject_ClearWeakRefs before the rest of tp_dealloc runs"]
 CLASSES = {}
 
+def translators(ctx):
+    """statements of get_or_insert_unique_type / remove_dead_unique_reference / ctypedescr_dealloc"""
+    sys.path.insert(0, os.path.join(common.VERIF, "translate"))
+    import c27_steps
+    return [lambda: c27_steps.translate(common.REPO, common.write_generated)]
+
+
 PRIMS = ["int", "char", "short", "long", "unsigned int", "double", "signed char"]
 SPELL = {"unsigned int": ["unsigned int", "unsigned"], "long": ["long", "long int"], "short": ["short", "short int"]}
 PRIM_SIZE = {"int": 4, "char": 1, "short": 2, "long": 8, "unsigned int": 4, "double": 8, "signed char": 1}
